@@ -79,6 +79,8 @@ def gen_spec(rng):
             'zero_frac': rng.choice([0, 0, 0.3, 0.6, 0.9]),
             'est_comment': rng.random() < 0.8, 'mat_comment': rng.random() < 0.7,
             'comment_block': rng.random() < 0.85, 'reference_block': rng.random() < 0.5,
+            'header_trailing': rng.choice(['', '', ' ', '      ']), 'pad_lines': rng.random() < 0.2,
+            'extra_blocks': rng.random() < 0.3,
             'comments': rng.sample(['* combined solution', '* minimum constraint', 'free text V V V 00006', '*'], rng.randrange(0, 4))}
 
 
@@ -187,7 +189,7 @@ def write_sinex(spec, sol=None):
     sol = sol or Solution(spec)
     L = []
     n = len(sol.stations) * sol.per
-    L.append(header_line(spec, n, sol.velocities))
+    L.append(header_line(spec, n, sol.velocities) + spec.get('header_trailing', ''))
     if spec.get('reference_block'):
         L += [SEP, '+FILE/REFERENCE', ' DESCRIPTION        Geoscience Australia', ' SOFTWARE           V-soft 00006',
               '-FILE/REFERENCE']
@@ -204,10 +206,25 @@ def write_sinex(spec, sol=None):
         L.append(' %4s %2s %9s %1s %-22s %3d %2d %4.1f %3s %2d %4.1f %7.1f' % (
             s['code'], s['pt'], s['domes'], s['tech'], s['desc'][:22], s['lon'][0], s['lon'][1], s['lon'][2],
             latdeg, lat[2], lat[3], s['h']))
-    L += ['-SITE/ID', SEP, '+SOLUTION/EPOCHS', EPOCH_COMMENT]
+    L += ['-SITE/ID']
+    if spec.get('extra_blocks'):
+        L += [SEP, '+SITE/RECEIVER', '*SITE PT SOLN T DATA_START__ DATA_END____ DESCRIPTION_________ S/N__ FIRMWARE___']
+        for s in sol.stations:
+            L.append(' %4s %2s %4s %1s %s %s %-20s %-5s %-11s' % (s['code'], s['pt'], s['soln'], s['tech'], s['start'], s['end'],
+                                                                 'LEICA GRX1200GGPRO', '-----', '-----------'))
+        L += ['-SITE/RECEIVER']
+    L += [SEP, '+SOLUTION/EPOCHS', EPOCH_COMMENT]
     for s in sol.stations:
         L.append(' %4s %2s %4s %1s %s %s %s' % (s['code'], s['pt'], s['soln'], s['tech'], s['start'], s['end'], s['epoch']))
-    L += ['-SOLUTION/EPOCHS', SEP, '+SOLUTION/ESTIMATE']
+    L += ['-SOLUTION/EPOCHS']
+    if spec.get('extra_blocks'):
+        # an a-priori block looks exactly like the estimate block (same record layout, other values)
+        L += [SEP, '+SOLUTION/APRIORI', EST_COMMENT]
+        for p in sol.params():
+            L.append(' %5d %-6s %4s %2s %4s %12s %-4s %1s %s %s' % (
+                p['index'], p['type'], p['code'], p['pt'], p['soln'], p['epoch'], p['unit'], p['cons'], fe(p['value'] + 0.5), fs(1.0)))
+        L += ['-SOLUTION/APRIORI']
+    L += [SEP, '+SOLUTION/ESTIMATE']
     if spec.get('est_comment', True):
         L.append(EST_COMMENT)
     for p in sol.params():
@@ -217,7 +234,16 @@ def write_sinex(spec, sol=None):
     if spec.get('mat_comment', True):
         L.append(MAT_COMMENT)
     L += matrix_lines(sol.cov, sol.triangle)
-    L += ['-SOLUTION/MATRIX_ESTIMATE %s COVA' % sol.triangle, '%ENDSNX']
+    L += ['-SOLUTION/MATRIX_ESTIMATE %s COVA' % sol.triangle]
+    if spec.get('extra_blocks'):
+        L += [SEP, '+SOLUTION/MATRIX_APRIORI %s COVA' % sol.triangle, MAT_COMMENT]
+        for i in range(len(sol.cov)):
+            L.append(' %5d %5d %s' % (i + 1, i + 1, fe(1.0)))
+        L += ['-SOLUTION/MATRIX_APRIORI %s COVA' % sol.triangle]
+    L += ['%ENDSNX']
+    if spec.get('pad_lines'):
+        # Fortran-style fixed-length records: every line blank-padded to 80 columns
+        L = [L[0]] + [l.ljust(80) if len(l) < 80 and l != '%ENDSNX' else l for l in L[1:]]
     return '\n'.join(L) + '\n'
 
 
